@@ -38,6 +38,9 @@ inductive AccV
   | acct (key group authority : Nat) (flags : Nat)
   | bank (key group liquidityVault : Nat) (tag : Int) (flags : Nat) (weightInitZero : Bool) (emissionsMint : Nat := 0)
   | other (key : Nat)
+  | acctR (key : Nat) (flags : Nat) (record : Nat)      -- a margin account as the receivership instructions read it: flags + the key of its liquidation record
+  | record (key receiver : Nat)                          -- a liquidation record: the receiver it names
+  | feeState (key wallet : Nat)                          -- the fee state: the global fee wallet it names
   deriving DecidableEq, Repr
 
 def AccV.key : AccV → Nat
@@ -45,6 +48,9 @@ def AccV.key : AccV → Nat
   | .acct k _ _ _ => k
   | .bank k _ _ _ _ _ _ => k
   | .other k => k
+  | .acctR k _ _ => k
+  | .record k _ => k
+  | .feeState k _ => k
 
 abbrev Env := F → Option AccV
 
@@ -62,6 +68,7 @@ def flBit (f : Fl) : Option Int :=
 def flagsOf : AccV → Option Nat
   | .acct _ _ _ fl => some fl
   | .bank _ _ _ _ fl _ _ => some fl
+  | .acctR _ fl _ => some fl
   | _ => none
 
 def tagIs (k : TagK) (t : Int) : Bool :=
@@ -83,6 +90,9 @@ def evalChk (env : Env) : Chk → Option Bool
     | some (.bank _ g _ _ _ _ _), some (.group k _ _) => some (g == k)
     | some (.bank _ _ v _ _ _ em), some (.other k) =>
       if target = .f_liquidity_vault then some (v == k) else if target = .f_emissions_mint then some (em == k) else none
+    | some (.acctR _ _ r), some (.record k _) => some (r == k)
+    | some (.record _ recv), some (.other k) => if target = .f_liquidation_receiver then some (recv == k) else none
+    | some (.feeState _ w), some (.other k) => if target = .f_global_fee_wallet then some (w == k) else none
     | _, _ => none
   | .cons _ c =>
     match c with
@@ -139,6 +149,8 @@ structure AcctV where
   flags : Nat
   slots : List Account.Slot
   migratedTo : Nat := 0     -- key of the account this one was transferred to (0 = never transferred)
+  recReceiver : Nat := 0    -- its liquidation record: the receiver named by a running receivership (0 = none)
+  recCache : Risk.PreCache := ⟨0, 0, 0, 0⟩   -- … and the health snapshot its start took
   deriving Repr
 
 /-- the risk engine's view of a bank the account may hold a position in (the operated bank included, pre-state) -/
@@ -633,6 +645,72 @@ def ofMAcct (key : Nat) (m : Transfer.MAcct) : AcctV :=
 def transferIx (g : GroupV) (a : AcctV) (signer newKey newAuth : Nat) (feeWalletOk : Bool) : Res (AcctV × AcctV) :=
   (Transfer.transfer (toMAcct a) a.key g.key g.admin 1 g.paused signer newKey newAuth (if feeWalletOk then 1 else 2) 0).map
     fun (o, n) => (ofMAcct a.key o, ofMAcct newKey n)
+
+/-! ### `start_liquidation` and `end_liquidation`, the whole instructions (receivership by a third party)
+
+start: account checks (regenerated table: the account's own liquidation record; not already in receivership, not in a flash
+loan, not disabled) → the receiver is recorded → `start_receivership`: the risk engine on the whole portfolio as stored: the
+account must NOT be healthy at maintenance level; the maintenance and equity valuations are snapshotted into the record →
+ACCOUNT_IN_RECEIVERSHIP is set → the transaction's shape is validated (`shape` = the verdict of `validate_instructions`; its
+world-level rule is `Mfi.World.liqShape`, its raw model `Mfi.Tx.validateInstructions`).
+
+end: account checks (regenerated table: the account's own record; in receivership, not in a flash loan, not disabled; signed
+by the RECEIVER the record names; the fee state's own global fee wallet) → top level → `Risk.endLiquidation` on the whole
+portfolio as it stands against the record's snapshot: maintenance health not worse than at the start and (unless the assets
+were worth under five dollars) not positive; value seized ≤ value repaid × (1 + max premium) → the flag and the receiver are
+cleared. (The flat SOL fee, the record's four-entry history and the events are not modelled.) -/
+
+structure RCtx where
+  now : Int
+  g : GroupV
+  a : AcctV
+  recordOk : Bool          -- the liquidation record passed is the account's own
+  receiver : Nat           -- start: the receiver named; end: the signer
+  walletOk : Bool          -- end: the wallet passed is the fee state's global fee wallet
+  feeMax : Int             -- fee_state.liquidation_max_fee
+  risk : List RiskB
+  deriving Repr
+
+def RCtx.env (c : RCtx) : Env := fun f =>
+  if f = .f_marginfi_account then some (.acctR c.a.key c.a.flags 1)
+  else if f = .f_liquidation_record then some (.record (if c.recordOk then 1 else 2) c.a.recReceiver)
+  else if f = .f_liquidation_receiver then some (.other c.receiver)
+  else if f = .f_fee_state then some (.feeState 3 4)
+  else if f = .f_global_fee_wallet then some (.other (if c.walletOk then 4 else 5))
+  else none
+
+/-- the engine's view of the account's stored portfolio -/
+def RCtx.portfolio (c : RCtx) : Res (List Risk.Pos) :=
+  (c.a.slots.filter (·.active)).mapM fun s =>
+    match c.risk.find? (·.key == s.bank) with
+    | none => .error (.err E.InvalidBankAccount)
+    | some rb => .ok { bank := rb.r, a := s.a, l := s.l, feed := rb.feed }
+
+structure StartLiqOut where
+  flags : Nat
+  receiver : Nat
+  cache : Risk.PreCache
+  deriving Repr
+
+def startLiquidation (c : RCtx) (shape : Res Unit) : Res StartLiqOut := do
+  runChecks c.env (checks .StartLiquidation)
+  let ps ← c.portfolio
+  let cache ← Risk.startReceivership ps false
+  shape
+  .ok { flags := c.a.flags ||| ACCOUNT_IN_RECEIVERSHIP.toNat, receiver := c.receiver, cache }
+
+structure EndLiqOut where
+  flags : Nat
+  seized : Int
+  repaid : Int
+  deriving Repr
+
+def endLiquidation (c : RCtx) (stackHeight : Nat) : Res EndLiqOut := do
+  runChecks c.env (checks .EndLiquidation)
+  Bank.chk (stackHeight == 1) E.NotAllowedInCPI
+  let ps ← c.portfolio
+  let (seized, repaid) ← Risk.endLiquidation c.a.recCache ps c.feeMax
+  .ok { flags := c.a.flags &&& (Nat.xor ACCOUNT_IN_RECEIVERSHIP.toNat (2 ^ 64 - 1)), seized, repaid }
 
 /-! ### the protocol as a state machine over whole instructions
 
